@@ -14,16 +14,18 @@ for sd in seeds:
     tmp = tempfile.mkdtemp(prefix='seedrepo-')
     try:
         subprocess.run('git -C /repo archive HEAD | tar -x -C %s' % tmp, shell=True, check=True)
-        r = subprocess.run(['git', 'apply', '--directory', '.', os.path.join(ROOT, 'seeded', sd, 'patch.diff')], cwd=tmp)
-        if r.returncode != 0:
-            r = subprocess.run(['patch', '-p1', '-i', os.path.join(ROOT, 'seeded', sd, 'patch.diff')], cwd=tmp)
+        r = subprocess.run(['patch', '-p1', '-s', '-i', os.path.join(ROOT, 'seeded', sd, 'patch.diff')], cwd=tmp)
         res = {}
-        for p in propinfo.CLAIMED:
-            env = dict(os.environ, CALLOOP_REPO=tmp, VERIF_EVIDENCE_DIR=os.path.join(tmp, 'evidence'), VERIF_BUILD_DIR=os.path.join(tmp, 'build'), VERIF_REPLAY_DIR=os.path.join(tmp, 'replay'))
+        def one(p):
+            env = dict(os.environ, CALLOOP_REPO=tmp, VERIF_EVIDENCE_DIR=os.path.join(tmp, 'evidence'), VERIF_BUILD_DIR=os.path.join(tmp, 'build'), VERIF_REPLAY_DIR=os.path.join(tmp, 'replay'), VERIF_JOBS='4')
             o = subprocess.run([os.path.join(ROOT, 'check'), p], capture_output=True, text=True, env=env)
             viol = [l for l in o.stdout.splitlines() if l.startswith('VIOLATION')]
             und = [l for l in o.stdout.splitlines() if l.startswith('UNDECIDED') and 'tier=' not in l]
-            res[p] = {'rc': o.returncode, 'violations': [re.sub(r'replay=\S+ ', '', v)[:300] for v in viol], 'undecided': [u[:300] for u in und]}
+            return p, {'rc': o.returncode, 'violations': [re.sub(r'replay=\S+ ', '', v)[:300] for v in viol], 'undecided': [u[:300] for u in und]}
+        import concurrent.futures as cf
+        with cf.ThreadPoolExecutor(max_workers=5) as ex:
+            for p, r in ex.map(one, propinfo.CLAIMED):
+                res[p] = r
         json.dump(res, open(os.path.join(ROOT, 'seeded', sd, 'detection.json'), 'w'), indent=1)
         rows.append((sd, res))
         print(sd, {p: r['rc'] for p, r in res.items() if r['rc'] != 0}, flush=True)
